@@ -5,6 +5,6 @@ CONSTANTS
   NONE = NONE
   PoolSize = 1
   TxMode = TRUE
-  Dev = {"putback_reuses_unclean", "copydone_single_recv", "copydone_no_copy_check"}
+  Dev = {"putback_reuses_unclean", "copydone_single_recv", "copydone_no_copy_check", "set_in_tx_not_marked"}
   MaxMsgs = 3
 INVARIANTS TypeOK ExclusiveHold CleanHandoff IdleIsClean Bounded NoLeak MapSound BeliefSound
